@@ -377,7 +377,10 @@ Definition R (r rt : res) : Prop :=
   | RErr (TooShort d) => rt = RErr (TooShort d)
   | RErr (NotFound d) => rt = RErr (NotFound d)
   | RErr (TooLong d) => rt = RErr (TooLong d)
-  | RErr (Absent d) | RErr (Access d _) | RErr (Invalid d _) | RErr (Inner d) => le_depth d rt
+  | RErr (Absent d) | RErr (Access d _) => le_depth d rt
+  (* the payload is only touched, and validators only run, once the key has been classified as a leaf *)
+  | RErr (Inner d) => rt = ROk d
+  | RErr (Invalid d _) => exists d0, rt = ROk d0 /\ d <= d0
   | RErr Unreachable => True
   end.
 
@@ -388,36 +391,29 @@ Proof. destruct rt as [d|[]]; simpl; exact I. Qed.
 
 Lemma R_shift r rt : R r rt -> R (rshift 1 r) (rshift 1 rt).
 Proof.
-  destruct r as [d|[]]; simpl; try (intros ->; reflexivity); try exact id.
+  destruct r as [d|[d|d|d|d|d m|d m|d|]]; simpl; try (intros ->; reflexivity); try exact id.
   - intros (d0 & -> & H). exists (S d0). split; [reflexivity|]. intros Hn. f_equal. auto.
   - intros H. destruct rt as [d0|[]]; simpl in *; lia || exact I.
   - intros H. destruct rt as [d0|[]]; simpl in *; lia || exact I.
-  - intros H. destruct rt as [d0|[]]; simpl in *; lia || exact I.
-  - intros H. destruct rt as [d0|[]]; simpl in *; lia || exact I.
+  - intros (d0 & -> & H). exists (S d0). split; [reflexivity|lia].
 Qed.
 
-Lemma R_zero_err rt e : okrt rt -> edepth e = 0 -> (forall d, e <> TooShort d) -> (forall d, e <> NotFound d) ->
-  (forall d, e <> TooLong d) -> R (RErr e) rt.
-Proof.
-  intros Hk Hd H1 H2 H3. destruct e; simpl in *; subst; try (apply le_depth_0; exact Hk); try exact I.
-  - exfalso. eapply H1. reflexivity.
-  - exfalso. eapply H2. reflexivity.
-  - exfalso. eapply H3. reflexivity.
-Qed.
+Lemma R_access_0 rt m : okrt rt -> R (RErr (Access 0 m)) rt.
+Proof. intros Hk. simpl. apply le_depth_0. exact Hk. Qed.
 
 Lemma R_arm o a c (f : value L -> out L) rt : okrt rt -> R (fst (fst (f c))) rt -> R (fst (fst (arm orc o a c f))) rt.
 Proof.
-  intros Hk H. unfold Tree.arm. destruct (a_deny a o); [apply R_zero_err; try discriminate; try reflexivity; exact Hk|].
+  intros Hk H. unfold Tree.arm. destruct (a_deny a o); [apply R_access_0; exact Hk|].
   destruct (match (if writes o then a_getmut a else a_get a) with
             | Some id => match orc id with CbFail m => Some m | _ => None end | None => None end);
-    [apply R_zero_err; try discriminate; try reflexivity; exact Hk|].
+    [apply R_access_0; exact Hk|].
   destruct (f c) as [[r c'] lg]. simpl in H.
   destruct o, r as [d|e]; try exact H.
   destruct (a_val a) as [vid|]; [|exact H].
   destruct (orc vid) as [[d'|]|m] eqn:Eo; simpl.
   - destruct H as (d0 & -> & Hd). exists d0. split; [reflexivity|]. intros Hn. exfalso. eapply Hn. exact Eo.
   - exact H.
-  - apply le_depth_0. exact Hk.
+  - destruct H as (d0 & -> & _). exists d0. split; [reflexivity|lia].
 Qed.
 
 Lemma R_with_child sum v i (f : value L -> out L) rt : okrt rt ->
